@@ -65,7 +65,8 @@ pub fn game_ending(
         return Some(GameEnding::Draw);
     }
 
-    if board.halfmove_clock() >= 50 {
+    // fifty moves by each side, i.e. one hundred plies
+    if board.halfmove_clock() >= 100 {
         return Some(GameEnding::Draw);
     }
 
